@@ -28,9 +28,9 @@ def classify(record) -> str:
     return (record.get("message") or "").split("::")[0].strip()[:60] or "c03"
 
 
-def _check_grammar(family, holes, perm, maxlen) -> None:
+def _check_grammar(family, holes, perm, maxlen, reverse=False) -> None:
     names = G.NAME_PERMS[perm]
-    g = G.instantiate(family, holes, names)
+    g = G.instantiate(family, holes, names, reverse)
     start = names["S"]
     rec = G.left_recursive(g)
     for smart in (True, False):
@@ -68,12 +68,13 @@ def h_family(h0: int, h1: int, h2: int, h3: int, h4: int, perm: int, shard=None)
         else:
             reject_unless(hs[i] == 0)
     reject_unless(perm in shard["perms"])
+    reverse = (perm % 2 == 1)     # odd name permutations also declare the symbols bottom-up
     if "h0" in shard:
         reject_unless(h0 == shard["h0"])
     hs = [realize(x) for x in hs]
     perm = realize(perm)
     with concrete():
-        _check_grammar(fam, hs[:n], perm, shard["maxlen"])
+        _check_grammar(fam, hs[:n], perm, shard["maxlen"], perm % 2 == 1)
 
 
 def replay_h_family(record):
@@ -82,7 +83,7 @@ def replay_h_family(record):
     shard = record["fixed"]["shard"]
     n = G.n_holes(shard["family"])
     try:
-        _check_grammar(shard["family"], [a[f"h{i}"] for i in range(5)][:n], a["perm"], shard["maxlen"])
+        _check_grammar(shard["family"], [a[f"h{i}"] for i in range(5)][:n], a["perm"], shard["maxlen"], a["perm"] % 2 == 1)
     except Violation as e:
         return str(e)
     except Reject:
